@@ -233,9 +233,9 @@ def h_positions(o):
         for a in conf.atoms:
             if a.element == 'H' and a.type == 'atom' and a.bonded_atoms:
                 p = a.bonded_atoms[0]
-                heavy = p.get_bonded_heavy_atoms()
                 # plane- or completion-defined constructions only (a single neighbour without a plane gets a frame-dependent rotamer)
-                if len(heavy) < 2 and not (len(heavy) == 1 and heavy[0].steric_number == 3 and len(heavy[0].bonded_atoms) > 1):
+                from .c04 import rotamer_is_arbitrary
+                if rotamer_is_arbitrary(p):
                     continue
                 out.append(((cname, p.chain_id, p.res_num, p.icode, p.name), (a.x, a.y, a.z)))
     return out
@@ -285,18 +285,16 @@ def run(ctx):
                     ncomplete = len(complete_in.get((num, ch), set()))
                     if len(msgs) > len(names) - ncomplete:
                         wbad.append((name, msgs[0], text))
-        # orientation: default mode, amino-acid hydrogens, a few rotations
-        base = observe.run(text, [], want_text=False)
-        if base.error:
+        # orientation: amino-acid hydrogens, a few rotations, default mode and --protonate-all
+        for omode in ([], ["--protonate-all"]):
+          base = observe.run(text, omode, want_text=False)
+          if base.error:
             continue
-        bpos = dict(h_positions(base))
-        ks = rnd.sample(range(1, 24), 2 if ctx.quick() else 8)
-        for k in ks:
+          ks = rnd.sample(range(1, 24), (2 if not omode else 1) if ctx.quick() else (8 if not omode else 3))
+          for k in ks:
             m = rots[k]
             lines = pdbgen.rotate(pdbgen.lines_of(text), m)
-            # keep the coordinates inside the PDB field
-            (x0, x1), (y0, y1), (z0, z1) = pdbgen.bbox(lines)
-            o2 = observe.run(pdbgen.text(lines), [], want_text=False)
+            o2 = observe.run(pdbgen.text(lines), omode, want_text=False)
             ctx.case(key=(name, "rot", k))
             if o2.error:
                 obad.append((name, k, "error %r" % (o2.error,), text))
